@@ -114,6 +114,8 @@ func joinc(j string) func(int) seq.Seq[int] {
 	panic("join code " + j)
 }
 
+const spareSentinel = -777777
+
 // prepare gives every source slice its own backing array (with spare capacity, so that an
 // append through an alias would also show)
 func prepare(t *Node) {
@@ -123,6 +125,11 @@ func prepare(t *Node) {
 	if t.O == "slice" {
 		b := make([]int, len(t.Xs), len(t.Xs)+2)
 		copy(b, t.Xs)
+		// sentinels in the spare capacity behind the slice: writing through an alias (append) shows
+		full := b[:cap(b)]
+		for i := len(t.Xs); i < len(full); i++ {
+			full[i] = spareSentinel
+		}
 		t.buf = b
 	}
 	prepare(t.S)
@@ -140,6 +147,14 @@ func sources(t *Node, acc *[][]int) {
 	case "slice":
 		c := make([]int, len(t.buf))
 		copy(c, t.buf)
+		// memory behind the slice (its spare capacity) belongs to the source too: if it was written, report it
+		full := t.buf[:cap(t.buf)]
+		for i := len(t.buf); i < len(full); i++ {
+			if full[i] != spareSentinel {
+				c = append(c, full[len(t.buf):]...)
+				break
+			}
+		}
 		*acc = append(*acc, c)
 	case "plus":
 		sources(t.L, acc)
